@@ -67,7 +67,16 @@ let () =
                (-DBITSERIALIZER_VERIF_CSV_CHUNK_SIZE=<K>); the theorems are for every K *)
             let k = if t.(1) = "stream" then chunk_size
                     else nat_of_int (int_of_string (String.sub t.(1) 6 (String.length t.(1) - 6))) in
-            if not (utf8_detected k text) then print_string "UNSUPPORTED\n"
+            if not (utf8_detected k text) then begin
+              (* a UTF-16/32 source: the CSV loader fed the chunks of the stream family's model of
+                 CEncodedStreamReader<char, K> (csv_load_encoded, coq/CsvEncodings.v); policy Skip and the default
+                 error mark of the class.  K must be a multiple of 4, >= 32 there *)
+              let mark = List.map n_of_int [0xE2; 0x98; 0x90] in
+              let fuel = nat_of_int (List.length text + 2) in
+              match csv_load_encoded k Skip mark fuel sep keys text true with
+              | Some r -> print_string (show show_rows r ^ "\n")
+              | None -> print_string "UNSUPPORTED\n"
+            end
             else print_string (show show_rows (csv_load_stream k sep keys text) ^ "\n")
           end
         | "sepv" when Array.length t = 2 ->
